@@ -204,8 +204,12 @@ static void do_op(void)
     int i = (int) h_argi("i", 0), j = (int) h_argi("j", 0), st, nid = -1, n = -1; double pid = -1.;
     ESL_MSA *msa = build_msa();
     if (!msa || i < 0 || j < 0 || i >= g_nrow || j >= g_nrow) { esl_msa_Destroy(msa); h_out("bad-op"); return; }
-    if (g_mode == 0) st = esl_dst_CPairId(msa->aseq[i], msa->aseq[j], &pid, &nid, &n);
-    else             st = esl_dst_XPairId(g_abc, msa->ax[i], msa->ax[j], &pid, &nid, &n);
+    { /* opt=<mask>: which of the three optional outputs are requested (1 pid, 2 nid, 4 n); the others are passed NULL */
+      int opt = (int) h_argi("opt", 7);
+      double *ppid = (opt & 1) ? &pid : NULL; int *pnid = (opt & 2) ? &nid : NULL, *pn = (opt & 4) ? &n : NULL;
+      if (g_mode == 0) st = esl_dst_CPairId(msa->aseq[i], msa->aseq[j], ppid, pnid, pn);
+      else             st = esl_dst_XPairId(g_abc, msa->ax[i], msa->ax[j], ppid, pnid, pn);
+    }
     h_out("%s %s %d %d", h_status(st), h_dbits(pid), nid, n);
     esl_msa_Destroy(msa);
   }
@@ -328,13 +332,16 @@ static void do_op(void)
     int K = (g_mode == 0) ? (int) h_argi("k", 4) : g_abc->K;
     ESL_MSA *msa = build_msa();
     if (!msa || i < 0 || j < 0 || i >= g_nrow || j >= g_nrow || K < 2) { esl_msa_Destroy(msa); h_out("bad-op"); return; }
+    int opt = (int) h_argi("opt", 7);
     if (!strcmp(op, "pairmatch")) {
-      if (g_mode == 0) st = esl_dst_CPairMatch(msa->aseq[i], msa->aseq[j], &pm, &nm, &n);
-      else             st = esl_dst_XPairMatch(g_abc, msa->ax[i], msa->ax[j], &pm, &nm, &n);
+      double *ppm = (opt & 1) ? &pm : NULL; int *pnm = (opt & 2) ? &nm : NULL, *pn = (opt & 4) ? &n : NULL;
+      if (g_mode == 0) st = esl_dst_CPairMatch(msa->aseq[i], msa->aseq[j], ppm, pnm, pn);
+      else             st = esl_dst_XPairMatch(g_abc, msa->ax[i], msa->ax[j], ppm, pnm, pn);
       h_out("%s %s %d %d", h_status(st), h_dbits(pm), nm, n);
     } else {
-      if (g_mode == 0) st = esl_dst_CJukesCantor(K, msa->aseq[i], msa->aseq[j], &d, &v);
-      else             st = esl_dst_XJukesCantor(g_abc, msa->ax[i], msa->ax[j], &d, &v);
+      double *pd = (opt & 1) ? &d : NULL, *pv = (opt & 2) ? &v : NULL;
+      if (g_mode == 0) st = esl_dst_CJukesCantor(K, msa->aseq[i], msa->aseq[j], pd, pv);
+      else             st = esl_dst_XJukesCantor(g_abc, msa->ax[i], msa->ax[j], pd, pv);
       o_reset(); o_add("%s %s", h_status(st), h_dbits(d)); o_add(" %s", h_dbits(v)); h_out("%s", ob);
     }
     esl_msa_Destroy(msa);
@@ -379,15 +386,19 @@ static void do_op(void)
     ESL_MSA *msa = build_msa(); ESL_DMATRIX *D = NULL, *V = NULL; int st, i;
     int K = (g_mode == 0) ? (int) h_argi("k", 4) : g_abc->K;
     if (!msa || K < 2) { esl_msa_Destroy(msa); h_out("bad-op"); return; }
-    st = (g_mode == 0) ? esl_dst_CJukesCantorMx(K, msa->aseq, msa->nseq, &D, &V) : esl_dst_XJukesCantorMx(g_abc, msa->ax, msa->nseq, &D, &V);
-    if (st != eslOK) h_out("%s%s", h_status(st), (D || V) ? " matrices-not-null" : "");
-    else if (!D || !V) h_out("ok-but-null");
-    else {
-      o_reset(); o_add("ok d=");
-      for (i = 0; i < msa->nseq; i++) { if (i) o_add(","); o_dlist(D->mx[i], msa->nseq); }
-      o_add(" v=");
-      for (i = 0; i < msa->nseq; i++) { if (i) o_add(","); o_dlist(V->mx[i], msa->nseq); }
-      h_out("%s", ob);
+    { /* opt=<mask>: 1 = distance matrix requested, 2 = variance matrix requested (the other is passed NULL and freed inside) */
+      int opt = (int) h_argi("opt", 3);
+      ESL_DMATRIX **pD = (opt & 1) ? &D : NULL, **pV = (opt & 2) ? &V : NULL;
+      st = (g_mode == 0) ? esl_dst_CJukesCantorMx(K, msa->aseq, msa->nseq, pD, pV) : esl_dst_XJukesCantorMx(g_abc, msa->ax, msa->nseq, pD, pV);
+      if (st != eslOK) h_out("%s%s", h_status(st), (D || V) ? " matrices-not-null" : "");
+      else if (((opt & 1) && !D) || ((opt & 2) && !V)) h_out("ok-but-null");
+      else {
+        o_reset(); o_add("ok d=");
+        if (!D) o_add("-"); else for (i = 0; i < msa->nseq; i++) { if (i) o_add(","); o_dlist(D->mx[i], msa->nseq); }
+        o_add(" v=");
+        if (!V) o_add("-"); else for (i = 0; i < msa->nseq; i++) { if (i) o_add(","); o_dlist(V->mx[i], msa->nseq); }
+        h_out("%s", ob);
+      }
     }
     esl_dmatrix_Destroy(D); esl_dmatrix_Destroy(V); esl_msa_Destroy(msa);
   }
